@@ -9,7 +9,7 @@ from lib import common, cstage, tsgen
 THEOREMS = ["C10_named_validators_independent_of_map_order", "C10_refuted_first_error_depends_on_map_order",
             "C10_first_error_in_name_order_is_deterministic"]
 
-# iteration sites over HashMap-typed bindings that the model accounts for: (file, normalised source line) -> why it is harmless
+# iteration sites over HashMap- and HashSet-typed bindings that the model accounts for: (file, normalised source line) -> why it is harmless
 EXPECTED_SITES = {
     ("frontend/mod.rs", "for it in &s.exprs {"): "false positive of the syntactic scan: `exprs` of a template literal is a Vec",
     ("frontend/mod.rs", "let mut named_values = module.symbol_exports.named_values.iter().collect::<Vec<_>>();"):
@@ -39,6 +39,34 @@ def diag_projects(r, n):
     return out
 
 
+def mapped_projects(r, n):
+    """mapped types over several literal keys: value types that fail with different errors per key, and value types that go
+    through the semantic engine over a recursive type (each extraction draws names for generated helper types)"""
+    out = []
+    keysets = [["key", "tag"], ["a", "b", "c"], ["left", "right", "up", "down"], ["x1", "x2", "x3", "x4", "x5", "x6"]]
+    for i in range(n):
+        ks = r.choice(keysets)
+        union = " | ".join('"%s"' % k for k in ks)
+        style = i % 3
+        if style == 0:
+            bads = ["symbol", "Uppercase<K>", "Missing_" + ks[0], "InstanceType<K>", "unique symbol"]
+            r.shuffle(bads)
+            chain = "never"
+            for k, b in zip(ks[1:], bads):
+                chain = 'K extends "%s" ? %s : %s' % (k, b, chain)
+            body = 'K extends "%s" ? %s : %s' % (ks[0], bads[-1], chain)
+            text = "export type M = { [K in %s]: %s };\nparse.buildParsers<{ M: M }>();" % (union, body)
+        elif style == 1:
+            text = ("export type Tree = { v: string; kids: Tree[] };\ntype Slot = %s;\n"
+                    "export type M = { [K in Slot]: Exclude<{ slot: K; root: Tree } | null, null> };\nparse.buildParsers<{ M: M }>();" % union)
+        else:
+            text = ("export type L = { v: number; next: L | null };\n"
+                    "export type M = { [K in %s]: Extract<{ k: K; l: L } | K | null, object> };\n"
+                    "export type P = Partial<Record<%s, Exclude<L | string, string>>>;\nparse.buildParsers<{ M: M, P: P }>();" % (union, union))
+        out.append([("entry.ts", text)])
+    return out
+
+
 def check(run):
     ok = run.prove("Props.C10", THEOREMS, ["Props/C10.vo"])
     common.ensure_harness()
@@ -56,6 +84,7 @@ def check(run):
         files, _ = tsgen.split_program(decls, parsers, r)
         projects.append(files)
     projects += diag_projects(r, 40 if quick else 500)
+    projects += mapped_projects(r, 24 if quick else 300)
     runs = 5 if quick else 8
     jobs, meta = [], []
     for pi, files in enumerate(projects):
@@ -80,7 +109,8 @@ def check(run):
     cov["evaluations"] = len(jobs)
     cov["distinct_nontrivial"] = len(projects)
     cov["rule"] = ("multi-file projects (random layouts) and diagnostics-heavy projects (several failing exports behind namespace "
-                   "imports, several unresolved names), each compiled %d times in fresh processes (fresh hash seeds) with shuffled file "
+                   "imports, several unresolved names) and mapped types over several literal keys (per-key errors; semantic value types over "
+                   "recursive types), each compiled %d times in fresh processes (fresh hash seeds) with shuffled file "
                    "registration order and eager/lazy parsing; outputs compared byte for byte" % runs)
     cov["correspondence"]["HashMap iteration sites in beff-core/src vs the sites the model accounts for"] = {
         "cases": len(found), "disagreements": len(unexpected),
